@@ -45,6 +45,14 @@ CLAIMS.update({
         ref="DESIGN.md §4 C18"),
 })
 
+CLAIMS.update({
+    "C16": dict(
+        text="Two engines. (1) mirsmt: the nightly MIR of bitops_avx2::{convert_bases, pack_32_bases} and of the scalar tables is translated on every run to SMT-LIB2 bit-vectors (AVX2 intrinsics modelled from the Intel SDM) and z3 and cvc5 must both answer unsat for: a panic is reachable / packed != scalar packing / a lane != base_to_bits / validity flag != all-valid — over ALL 256^32 blocks. (2) Kani: all 256 inputs of every scalar table; from_acgt_bytes on every byte string of lengths 0,1,32,33,65 (thorough: 31,63,64,95,96,97) on the scalar path and on the vector path's chunking with the kernels replaced by their SMT-proved scalar spec; Kmer::from_ascii for all 20 k-mer types; hashed-N and strict constructors on tiny inputs.",
+        note="Trusted: my MIR-subset translator and intrinsic semantics (validated each run against the real binary on the repo's test vectors + seeded random blocks; any unsupported MIR, `(error` line or solver disagreement = inconclusive), z3 4.8.12, cvc5 1.0, Kani/CBMC. Stubs S1, S3a/S3b (CPU feature detection), kernel spec stubs. Outside: non-ASCII &str input, real cpuid dispatch, from_dna_string beyond 1 char, hashed-N beyond 1 byte (quick) / 3 bytes (thorough), strict constructor beyond 2 chars.",
+        ref="DESIGN.md §4 C16", engine="kani+mirsmt",
+        technique="MIR-to-SMT-LIB2 symbolic execution of the AVX2 kernels decided by z3 and cvc5 (all 256^32 blocks) + Kani/CBMC bounded model checking of the scalar and chunking code"),
+})
+
 NOT_APPLICABLE = {
     "C01": "statement is about the result of the growth loops over BitSet/Vec/VecDeque/PackedDnaStringSet; build_node on a 2-row table exceeded 12 GB and compress_kmers on 2 rows 31 GB in CBMC — no heap-light unit carries the partition/payload claim (the join decision itself is claimed under C02)",
     "C04": "whole-pipeline equivalence (msp -> per-shard filter -> compress -> combine -> finish -> recompress, twice); every stage but the first is individually beyond the solver's reach (measured, DESIGN §8); its local ingredients are decided under C08/C05/C02/C09",
@@ -90,6 +98,8 @@ def build():
             add_only=True,
         ),
         engines=[
+            dict(name="mirsmt", path="/verif/tools/mirsmt.py", serves_properties=["C16"],
+                 kind_free_text="nightly rustc -Zunpretty=mir dump of /repo -> straight-line MIR symbolic executor -> SMT-LIB2 bit-vectors, decided by z3 4.8.12 and cvc5 1.0 (both must agree); counterexamples replayed through /verif/native against the real AVX2 path"),
             dict(name="kani", path="/verif/harness", serves_properties=sorted(CLAIMS),
                  kind_free_text="Kani 0.68 proof harnesses (out-of-tree crate, path dependency on /repo) decided by CBMC 6.11 + CaDiCaL; boomphf replaced by the model crate /verif/harness/boomphf-model via [patch.crates-io]"),
         ],
